@@ -1,5 +1,7 @@
 package main
 
+import "runtime"
+
 // usesCallLog: the expression mentions the call log of the function it belongs to (called(F), ncalls(F), quantification
 // over calls(F)). Such a clause talks about calls made INSIDE the contracted function; at a call site it cannot be
 // assumed against the caller's log (the inner calls are not in it), so the call rule leaves it out. What such a clause
@@ -18,4 +20,29 @@ func usesCallLog(x *Expr) bool {
 		}
 	}
 	return false
+}
+
+// evalBoolNilGuard evaluates a boolean clause part; nilRead reports that it dereferenced a nil pointer.
+func (e *Engine) evalBoolNilGuard(env *Env, x *Expr) (t string, nilRead bool) {
+	defer func() {
+		if r := recover(); r != nil {
+			if _, ok := r.(*NilDeref); ok {
+				t, nilRead = "false", true
+				return
+			}
+			panic(r)
+		}
+	}()
+	return e.evalBool(env, x), false
+}
+
+// solverSlots bounds the number of solver processes running at once (see runSolver).
+var solverSlots = make(chan struct{}, solverProcs())
+
+func solverProcs() int {
+	n := runtime.NumCPU()
+	if n < 2 {
+		n = 2
+	}
+	return n
 }
